@@ -657,3 +657,29 @@ func VerifH03f() {
 		}
 	}
 }
+
+// ---------------------------------------------------------------------------
+// H06q — a Parse that pre-specifies MANY parameter types, all of them present
+// (C06, C04): 16383, 16384, 16385, 32768 or 65535 object ids (four bytes each:
+// the list crosses 65536 bytes at 16384) in a message below the limit. It is a
+// legal Parse: answered with ParseComplete, and the Sync behind it with the one
+// ReadyForQuery; the parse callback ran once.
+// ---------------------------------------------------------------------------
+func VerifH06q() {
+	counts := []int{16383, 16384, 16385, 32768, 65535}
+	count := counts[vChoose(len(counts))]
+	body := vCat(vCStr(nil), vCStr([]byte("q")), vU16(count))
+	ids := make([]byte, 4*count)
+	ids[4*count-1] = nondetByte() // (the last object id: any value 0..255)
+	body = append(body, ids...)
+	w := vNewWorld(vCat(vMsgBytes('P', body), vMsgBytes('S', nil)), 300000)
+	w.parseMenu = -2
+	got, err := w.step()
+	vAssert("a-legal-parse-is-answered-with-ParseComplete", err == nil && got == "1")
+	got, err = w.step()
+	vAssert("sync-answered-with-the-one-ReadyForQuery", err == nil && got == "Z")
+	vAssert("parse-callback-ran-once", w.countEvents('p') == 1)
+	if count >= 16384 {
+		vReach("type-list-of-65536-bytes-and-more")
+	}
+}
